@@ -320,7 +320,9 @@ def run(ctx):
             if h2 == h:
                 ctx.violation("C18-same-hash-different-call-%s-%s" % (what, n[0]),
                               "two %s expressions that differ in %s have the same hash" % (n[0], what),
-                              case={"a": repr(real.build(n)), "b": repr(real.build(n2)), "node_a": n, "node_b": n2},
+                              case={"a": repr(real.build(n)), "b": repr(real.build(n2)), "node_a": n, "node_b": n2,
+                                    "options_a": repr({k: optval(v) for k, v in n[4]}) if len(n) > 4 else None,
+                                    "options_b": repr({k: optval(v) for k, v in n2[4]}) if len(n2) > 4 else None},
                               expected="different hashes", actual="equal")
         # ---- round trip: statement + model
         if mrt != rt:
